@@ -78,22 +78,25 @@ RECURSIVE GSum(_)
 GSum(s) == IF s = <<>> THEN GZero ELSE GAdd(Head(s), GSum(Tail(s)))
 
 \* ---- matrices (sequences of rows of Gaussian rationals) ------------------------
+\* TLC evaluates [i \in S |-> e] lazily and re-evaluates e on every application; TLCEval
+\* forces an explicit value, which keeps nested matrix products polynomial.
+Mk(n, m, E(_, _)) == TLCEval([i \in 1..n |-> TLCEval([j \in 1..m |-> E(i, j)])])
+MkV(n, E(_)) == TLCEval([i \in 1..n |-> E(i)])
 Rows(A) == Len(A)
 Cols(A) == Len(A[1])
 MMul(A, B) ==
-  [i \in 1..Rows(A) |-> [j \in 1..Cols(B) |->
-      GSum([k \in 1..Rows(B) |-> GMul(A[i][k], B[k][j])])]]
-MAdd(A, B) == [i \in 1..Rows(A) |-> [j \in 1..Cols(A) |-> GAdd(A[i][j], B[i][j])]]
-MSub(A, B) == [i \in 1..Rows(A) |-> [j \in 1..Cols(A) |-> GSub(A[i][j], B[i][j])]]
-MTimesI(A) == [i \in 1..Rows(A) |-> [j \in 1..Cols(A) |-> GTimesI(A[i][j])]]
-MTranspose(A) == [i \in 1..Cols(A) |-> [j \in 1..Rows(A) |-> A[j][i]]]
-MDagger(A) == [i \in 1..Cols(A) |-> [j \in 1..Rows(A) |-> GConj(A[j][i])]]
-MConj(A) == [i \in 1..Rows(A) |-> [j \in 1..Cols(A) |-> GConj(A[i][j])]]
-MId(n) == [i \in 1..n |-> [j \in 1..n |-> IF i = j THEN GOne ELSE GZero]]
-MDiag(v) == [i \in 1..Len(v) |-> [j \in 1..Len(v) |-> IF i = j THEN v[i] ELSE GZero]]
-MReal(K) == [i \in 1..Len(K) |-> [j \in 1..Len(K[i]) |-> GR(K[i][j])]]   \* rational matrix -> Gaussian
-VReal(v) == [i \in 1..Len(v) |-> GR(v[i])]
-Col(v) == [i \in 1..Len(v) |-> <<v[i]>>]                                  \* vector -> n x 1 matrix
+  Mk(Rows(A), Cols(B), LAMBDA i, j : GSum(MkV(Rows(B), LAMBDA k : GMul(A[i][k], B[k][j]))))
+MAdd(A, B) == Mk(Rows(A), Cols(A), LAMBDA i, j : GAdd(A[i][j], B[i][j]))
+MSub(A, B) == Mk(Rows(A), Cols(A), LAMBDA i, j : GSub(A[i][j], B[i][j]))
+MTimesI(A) == Mk(Rows(A), Cols(A), LAMBDA i, j : GTimesI(A[i][j]))
+MTranspose(A) == Mk(Cols(A), Rows(A), LAMBDA i, j : A[j][i])
+MDagger(A) == Mk(Cols(A), Rows(A), LAMBDA i, j : GConj(A[j][i]))
+MId(n) == Mk(n, n, LAMBDA i, j : IF i = j THEN GOne ELSE GZero)
+MDiag(v) == Mk(Len(v), Len(v), LAMBDA i, j : IF i = j THEN v[i] ELSE GZero)
+VConj(v) == MkV(Len(v), LAMBDA i : GConj(v[i]))
+MReal(K) == Mk(Len(K), Len(K[1]), LAMBDA i, j : GR(K[i][j]))       \* rational matrix -> Gaussian
+VReal(v) == MkV(Len(v), LAMBDA i : GR(v[i]))
+Col(v) == Mk(Len(v), 1, LAMBDA i, j : v[i])                            \* vector -> n x 1 matrix
 IsSquare(A, n) == Len(A) = n /\ \A i \in 1..n : Len(A[i]) = n
 
 \* ---- hypotheses of the property ------------------------------------------------
@@ -108,7 +111,7 @@ OneMinusIKD(d, K) == MSub(MId(Len(K)), MTimesI(MMul(K, MDiag(d))))
 OneMinusIK(K) == MSub(MId(Len(K)), MTimesI(K))
 
 RelThatLaw(That, K, rho) == MMul(That, OneMinusIDK(rho, K)) = K           \* T^ (1 - i rho K) = K
-RelTLaw(T, That, sq) == T = MMul(MMul(MDiag([i \in 1..Len(sq) |-> GConj(sq[i])]), That), MDiag(sq))
+RelTLaw(T, That, sq) == T = MMul(MMul(MDiag(VConj(sq)), That), MDiag(sq))
 NonRelLaw(T, K) == MMul(T, OneMinusIK(K)) = K                             \* T (1 - iK) = K
 Symmetric(T) == T = MTranspose(T)
 
@@ -120,13 +123,16 @@ CMax == 18000
 Lcm(a, b) == IF a > CMax \/ b > CMax THEN CMax + 1 ELSE (a \div Gcd(a, b)) * b
 RECURSIVE LcmSeq(_)
 LcmSeq(s) == IF s = <<>> THEN 1 ELSE Lcm(Head(s), LcmSeq(Tail(s)))
-Flatten(A) == [k \in 1..(Rows(A) * Cols(A)) |-> A[((k - 1) \div Cols(A)) + 1][((k - 1) % Cols(A)) + 1]]
-CommonDen(A) == LcmSeq([k \in 1..(2 * Rows(A) * Cols(A)) |->
-                          LET e == Flatten(A)[((k - 1) \div 2) + 1] IN IF k % 2 = 1 THEN e[1][2] ELSE e[2][2]])
+\* the 2 n m denominators of a matrix, as one sequence
+Dens(A) == MkV(2 * Rows(A) * Cols(A), LAMBDA k :
+             LET q == (k - 1) \div 2
+                 e == A[(q \div Cols(A)) + 1][(q % Cols(A)) + 1]
+             IN  IF k % 2 = 1 THEN e[1][2] ELSE e[2][2])
+CommonDen(A) == LcmSeq(Dens(A))
 InBudget(A) == CommonDen(A) <= CMax
 \* integer pair <<re, im>> of c * T_ij
-Scaled(A, c) == [i \in 1..Rows(A) |-> [j \in 1..Cols(A) |->
-                   <<A[i][j][1][1] * (c \div A[i][j][1][2]), A[i][j][2][1] * (c \div A[i][j][2][2])>>]]
+Scaled(A, c) == Mk(Rows(A), Cols(A), LAMBDA i, j :
+                   <<A[i][j][1][1] * (c \div A[i][j][1][2]), A[i][j][2][1] * (c \div A[i][j][2][2])>>)
 RECURSIVE ISum(_)
 ISum(s) == IF s = <<>> THEN 0 ELSE Head(s) + ISum(Tail(s))
 EntriesBounded(T) ==                                                      \* |T_ij| <= 1
@@ -137,8 +143,8 @@ EntriesBounded(T) ==                                                      \* |T_
 UnitaryInt(T) ==
   LET n == Rows(T)  c == CommonDen(T)  A == Scaled(T, c)
       \* (A^dagger A)_ij = sum_k conj(A_ki) A_kj
-      ReAA(i, j) == ISum([k \in 1..n |-> A[k][i][1] * A[k][j][1] + A[k][i][2] * A[k][j][2]])
-      ImAA(i, j) == ISum([k \in 1..n |-> A[k][i][1] * A[k][j][2] - A[k][i][2] * A[k][j][1]])
+      ReAA(i, j) == ISum(MkV(n, LAMBDA k : A[k][i][1] * A[k][j][1] + A[k][i][2] * A[k][j][2]))
+      ImAA(i, j) == ISum(MkV(n, LAMBDA k : A[k][i][1] * A[k][j][2] - A[k][i][2] * A[k][j][1]))
       \* i c (A^dagger - A)_ij = i c (conj(A_ji) - A_ij) = c (Im A_ji + Im A_ij) + i c (Re A_ji - Re A_ij)
       ReR(i, j) == c * (A[j][i][2] + A[i][j][2])
       ImR(i, j) == c * (A[j][i][1] - A[i][j][1])
@@ -155,7 +161,7 @@ UnitaryRat(T) ==
 \* production vectors (F, P are n x 1 matrices)
 NonRelFLaw(F, K, P) == MMul(OneMinusIK(K), F) = P
 RelFhatLaw(Fhat, K, sq, P) ==                  \* (sqrt(rho)* - i K sqrt(rho)) F^ = sqrt(rho)* P
-  LET csq == [i \in 1..Len(sq) |-> GConj(sq[i])]
+  LET csq == VConj(sq)
   IN  MMul(MSub(MDiag(csq), MTimesI(MMul(K, MDiag(sq)))), Fhat) = MMul(MDiag(csq), P)
 RelFLaw(F, Fhat, sq) == F = MMul(MDiag(sq), Fhat)
 \* consequence linking C10 to C09: (1 - iK)^-1 = 1 + iT
@@ -167,15 +173,15 @@ Det(M) == IF Len(M) = 1 THEN M[1][1]
 Adj(M) == IF Len(M) = 1 THEN <<<<GOne>>>>
           ELSE << <<M[2][2], GNeg(M[1][2])>>, <<GNeg(M[2][1]), M[1][1]>> >>
 Inverse(M) == LET d == Det(M)  a == Adj(M)
-              IN  [i \in 1..Len(M) |-> [j \in 1..Len(M) |-> GDiv(a[i][j], d)]]
+              IN  Mk(Len(M), Len(M), LAMBDA i, j : GDiv(a[i][j], d))
 RefThat(K, rho) == MMul(K, Inverse(OneMinusIDK(rho, K)))
-RefT(K, rho, sq) == MMul(MMul(MDiag([i \in 1..Len(sq) |-> GConj(sq[i])]), RefThat(K, rho)), MDiag(sq))
+RefT(K, rho, sq) == MMul(MMul(MDiag(VConj(sq)), RefThat(K, rho)), MDiag(sq))
 RefTnr(K) == MMul(K, Inverse(OneMinusIK(K)))
 RefF(K, P) == MMul(Inverse(OneMinusIK(K)), P)
 \* F^ = (1 - i K^ rho)^-1 P  with  K^ = sqrt(rho)*^-1 K sqrt(rho)^-1
 RefFhat(K, rho, sq, P) ==
-  LET isq == [i \in 1..Len(sq) |-> GDiv(GOne, sq[i])]
-      icsq == [i \in 1..Len(sq) |-> GDiv(GOne, GConj(sq[i]))]
+  LET isq == MkV(Len(sq), LAMBDA i : GDiv(GOne, sq[i]))
+      icsq == MkV(Len(sq), LAMBDA i : GDiv(GOne, GConj(sq[i])))
       Khat == MMul(MMul(MDiag(icsq), K), MDiag(isq))
   IN  MMul(Inverse(OneMinusIKD(rho, Khat)), P)
 =============================================================================
